@@ -144,6 +144,14 @@ func (cr *checkRunner) checkStates(ctx context.Context, checks []module.Check) (
 				cr.checkedRcptsLock.Unlock()
 
 				res := s.CheckRcpt(ctx, rcpt)
+				if res.Reject {
+					// See checkRcpt. The recipient of the command being
+					// handled is in checkedRcpts already and is shown here
+					// to the states that existed before as well.
+					cr.checkedRcptsLock.Lock()
+					delete(cr.checkedRcptsPerCheck[s], rcpt)
+					cr.checkedRcptsLock.Unlock()
+				}
 				return res
 			})
 			if err != nil {
